@@ -26,7 +26,10 @@ pub fn field_of(strategy: &str) -> &'static str {
 pub struct WebCase {
     pub g: GenAdf,
     pub text: String,
-    pub sem: Sem,
+    /// definitional answers in oracle order
+    pub grounded: Vec<Val>,
+    pub complete: Vec<Vec<Val>>,
+    pub stable: Vec<Vec<Val>>,
     /// statement labels in declaration order (= the service's variable order)
     pub decl: Vec<String>,
     /// decl position -> oracle index
@@ -41,11 +44,40 @@ pub fn web_case(rng: &mut Rng, nmax: usize, bio_safe: bool) -> WebCase {
     let decl: Vec<String> = r.decl_order.iter().map(|i| g.labels[*i].clone()).collect();
     let perm = r.decl_order.clone();
     WebCase {
+        grounded: sem.grounded(),
+        complete: sem.complete(),
+        stable: sem.stable(),
         g,
         text: r.text,
-        sem,
         decl,
         perm,
+    }
+}
+
+/// mid-size code (12 to 30 statements, at most six left undecided by grounding, at most 40 complete models):
+/// the definitional answers are found among the refinements of the grounded interpretation (support-bounded operator)
+pub fn web_case_mid(rng: &mut Rng) -> WebCase {
+    loop {
+        let n = rng.range(12, 30);
+        let block = rng.range(2, 6);
+        let g = oracle::gen::gen_mid(rng, n, block);
+        let sem = oracle::sem::BigSem::new(&g.ac);
+        let Some(complete) = sem.complete(6) else { continue };
+        if complete.len() > 40 {
+            continue;
+        }
+        let r = g.render(rng, true);
+        let decl: Vec<String> = r.decl_order.iter().map(|i| g.labels[*i].clone()).collect();
+        let perm = r.decl_order.clone();
+        return WebCase {
+            grounded: sem.grounded_rounds().0,
+            complete,
+            stable: sem.stable(6).expect("at most six undecided"),
+            g,
+            text: r.text,
+            decl,
+            perm,
+        };
     }
 }
 
@@ -144,10 +176,29 @@ pub fn check_graph(case: &WebCase, ac: &[String], graph: &Value, model: &[Val]) 
         return Err(format!("{} root labels for {} statements", named, case.decl.len()));
     }
     // semantics: for every total assignment extending the shown model, walking from the root of s evaluates ac_s
+    // (more than ten statements: 300 sampled assignments that agree with the model, seeded by the graph itself)
     let n = case.decl.len();
     let mut walks = 0u64;
-    for a in 0..(1usize << n) {
+    let exhaustive = n <= 10;
+    let mut srng = Rng::new(oracle::fnv(graph.to_string().as_bytes()));
+    let total = if exhaustive { 1usize << n } else { 300 };
+    for k in 0..total {
         // a is over declaration positions
+        let a: usize = if exhaustive {
+            k
+        } else {
+            let mut a = match k {
+                0 => 0usize,
+                1 => usize::MAX >> 1,
+                _ => srng.next_u64() as usize,
+            };
+            for j in 0..n {
+                if model[j] != VU {
+                    a = (a & !(1usize << j)) | (((model[j] == VT) as usize) << j);
+                }
+            }
+            a
+        };
         if (0..n).any(|j| model[j] != VU && (model[j] == VT) != ((a >> j) & 1 == 1)) {
             continue;
         }
@@ -256,13 +307,13 @@ pub fn check_body(rep: &mut Report, case: &WebCase, body: &Value, expect_error: 
             continue;
         }
         let mut want: Vec<Vec<Val>> = match strategy {
-            "Ground" => vec![case.sem.grounded()],
-            "Complete" => case.sem.complete(),
-            _ => case.sem.stable(),
+            "Ground" => vec![case.grounded.clone()],
+            "Complete" => case.complete.clone(),
+            _ => case.stable.clone(),
         };
         rep.count("model_sets_compared", 1);
         rep.count(&format!("strategy.{}", strategy), 1);
-        if strategy == "Complete" && models.first() != Some(&case.sem.grounded()) {
+        if strategy == "Complete" && models.first() != Some(&case.grounded) {
             return Err(("complete-first-not-grounded".into(), format!("{:?}", models.first().map(|m| show_vals(m)))));
         }
         let mut got = models.clone();
@@ -309,6 +360,8 @@ pub fn solve(s: &mut Session, name: &str, strategy: &str) -> Result<crate::http:
 
 pub struct C16Cfg {
     pub nmax: usize,
+    /// every k-th case submits a mid-size code (0: never)
+    pub mid_every: u64,
     pub delayed: bool,
 }
 
@@ -316,7 +369,12 @@ pub fn c16_case(env: &mut Env, rep: &mut Report, case_seed: u64, cfg: &C16Cfg) {
     let mut rng = Rng::new(case_seed);
     let parsing = if rng.bool() { "Naive" } else { "Hybrid" };
     let negative = rng.chance(1, 6);
-    let mut case = web_case(&mut rng, cfg.nmax, true);
+    let mid = cfg.mid_every > 0 && case_seed % cfg.mid_every == 0;
+    let mut case = if mid { web_case_mid(&mut rng) } else { web_case(&mut rng, cfg.nmax, true) };
+    if mid {
+        rep.count("mid_size_codes", 1);
+        rep.max("max_statements_in_a_submitted_code", case.g.n as u64);
+    }
     let mut class = "valid";
     if negative {
         let l = |i: usize| spell(&case.g.labels[i], false);
@@ -616,7 +674,7 @@ pub fn c16_case(env: &mut Env, rep: &mut Report, case_seed: u64, cfg: &C16Cfg) {
             rep.count("delayed_cases_without_running_observation", 1);
         }
     }
-    if negative || case.sem.complete().len() >= 2 {
+    if negative || case.complete.len() >= 2 {
         rep.nontrivial.insert(hash_str(&case.text));
     }
     if rep.samples.len() < 3 {
